@@ -12,7 +12,7 @@ import sympy
 from sympy.logic.inference import satisfiable
 
 from tsg.facts import strip, txt, walk, callee, call_args, call_object, short, const_val
-from tsg.flow import cond_edges_dominating, is_reachable
+from tsg.flow import relation, cond_edges_dominating, is_reachable
 from tsg.typestate import must_pass_before
 from tsg.build import AnalysisBroken
 
@@ -150,8 +150,9 @@ def rawlen_rule(chk, db, rule_id):
             chk.saw(f)
             ok = False
             for cnd, truth in cond_edges_dominating(f, c):
-                s = strip(cnd)
-                if s is not None and s.get("k") == "BinaryOperator" and s.get("op") in ("<", "<=") and (strip(s["c"][0]) or {}).get("did") == dp["did"] and not truth:
+                r = relation(cnd)
+                # on the edge taken the parameter is known not to be below the bound: false edge of `dimensions < 1`, true edge of `dimensions >= 1`
+                if r is not None and (strip(r[0]) or {}).get("did") == dp["did"] and ((r[1] in ("<", "<=") and not truth) or (r[1] in (">", ">=") and truth)):
                     ok = True
             chk.ob(rule_id, f.key + f.sig, "copyArray(..., %s) after `dimensions` was validated" % txt(strip(call_args(c)[1]))[:40], ok, f.loc(c),
                    "" if ok else "the array is copied before `dimensions < 1` is rejected: a negative value becomes a huge size_t")
@@ -172,11 +173,11 @@ def nopoints_rule(chk, db, rule_id):
             chk.saw(f)
             ok = False
             for cnd, truth in cond_edges_dominating(f, c):
-                s = strip(cnd)
-                if s is not None and s.get("k") == "BinaryOperator" and s.get("op") == "==" and const_val(strip(s["c"][1])) == 0 and not truth and \
-                        any(q.get("k") == "DeclRefExpr" for q in [s["c"][0]] + list(walk(s["c"][0]))):
+                r = relation(cnd)
+                if r is not None and const_val(strip(r[2])) == 0 and ((r[1] == "==" and not truth) or (r[1] in ("!=", ">") and truth)) and \
+                        any(q.get("k") == "DeclRefExpr" for q in [r[0]] + list(walk(r[0]))):
                     # the tested variable counts points (initialised from getNumNeeded / getNumPoints)
-                    d = strip(s["c"][0])
+                    d = strip(r[0])
                     loc = {v.get("did"): v for v in f.locals().values()}
                     ini = txt(loc.get(d.get("did"), {})) if d is not None else ""
                     if "getNumNeeded" in ini or "getNumPoints" in ini or "getNumLoaded" in ini:
